@@ -153,6 +153,7 @@ def unit_best(args):
             return
         dk = z3.ToReal(dv) / 1000
         tol = z3.RealVal(str(TOL + r.err))
+        c.notes.append(('best', r.t, r.err))       # for the cross-path obligations (built outside the path's context)
         c.oblige('world_best/positive', r.t > 0, 'post')
         s = z3.Solver()
         s.set('timeout', 2000)
@@ -172,7 +173,49 @@ def unit_best(args):
             c.oblige('world_best/increases-with-distance-inside-the-bracket', z3.Implies(hyp2, r2 >= r.t - tol), 'relational',
                      meta=dict(rows=[rr[i - 1][0], rr[i][0]]))
 
-    res = U.verify('world_best[%s,%s,any distance]' % (year, g), run, post, timeout_ms=30000, want_sample=False)
+    def cross(paths):
+        """the best increases with the distance ACROSS the paths of world_best too: for two different paths i, j and distances
+        d < d2 inside one bracket with d on path i and d2 on path j, best_j(d2) >= best_i(d)  (a branch of the code that
+        answers some distances differently must still fit between its neighbours)"""
+        from pyvc.core import Obligation, rename_apart
+        dv = z3.Int('d')
+        d2 = z3.Int('d2')
+        info = []
+        class _R(object):
+            pass
+        for p in paths:
+            nb = [n for n in p.notes if isinstance(n, tuple) and n and n[0] == 'best']
+            if not nb:
+                continue
+            r = _R()
+            r.t, r.err = nb[-1][1], nb[-1][2]
+            s = z3.Solver()
+            s.set('timeout', 2000)
+            s.add(*p.pc)
+            live = [k for k, (i, a, b) in enumerate(scan_brackets(rr))
+                    if s.check(z3.And(z3.ToReal(dv) / 1000 > z3.RealVal(repr(a)), z3.ToReal(dv) / 1000 < z3.RealVal(repr(b)))) != z3.unsat]
+            info.append((p, r, set(live)))
+        br = list(scan_brackets(rr))
+        out = []
+        for x, (pi, ri, li) in enumerate(info):
+            for y, (pj, rj, lj) in enumerate(info):
+                if x == y:
+                    continue
+                for k in sorted(li & lj):
+                    i, a, b = br[k]
+                    renamed = rename_apart(list(pj.pc) + [rj.t], keep=(), suffix='~2')
+                    sub = (z3.Int('d~2'), d2)
+                    pc2 = [z3.substitute(e, sub) for e in renamed[:-1]]
+                    r2 = z3.substitute(renamed[-1], sub)
+                    A, B = z3.RealVal(repr(a)), z3.RealVal(repr(b))
+                    hyp = [z3.ToReal(dv) / 1000 > A, z3.ToReal(dv) / 1000 < B, z3.ToReal(d2) / 1000 > A, z3.ToReal(d2) / 1000 < B, d2 > dv]
+                    tol = z3.RealVal(str(TOL + ri.err + rj.err))
+                    ob = Obligation('world_best/increases-with-distance-across-code-paths', 'relational', list(pi.pc) + pc2 + hyp, r2 >= ri.t - tol,
+                                    meta=dict(rows=[rr[i - 1][0], rr[i][0]]))
+                    out.append((ob, {'d': dv, 'd2': d2}))
+        return out
+
+    res = U.verify('world_best[%s,%s,any distance]' % (year, g), run, post, timeout_ms=30000, want_sample=False, cross=cross)
     for x in res['results']:
         x['ctx'] = dict(year=year, g=g, age=None, fn='best')
     res['fns'] = [x.describe() for x in recs]
